@@ -49,6 +49,12 @@ func c01Body(edge bool, maxN int, samePayload ...bool) mc.Body {
 // c01EmptyType: identities whose type is the empty string next to typed ones with the same key
 var c01EmptyType = []c01Ident{{"", ""}, {"a", ""}, {"", "b"}, {"a", "b"}}
 
+// c01ID: an injective name of (type, key) — no separator that the strings themselves may contain
+func c01ID(typ, key string) string { return fmt.Sprintf("%d:%s|%s", len(typ), typ, key) }
+
+// c01Nul: identities whose strings contain a NUL byte (a separator-based identity would confuse them)
+var c01Nul = []c01Ident{{"a\x00b", "c"}, {"a", "b\x00c"}, {"a\x00", ""}, {"a", "\x000"}}
+
 func c01BodyI(edge bool, maxN int, c01Idents []c01Ident, samePayload ...bool) mc.Body {
 	same := len(samePayload) > 0 && samePayload[0]
 	return func(x *mc.X) mc.Outcome {
@@ -146,7 +152,7 @@ func c01BodyI(edge bool, maxN int, c01Idents []c01Ident, samePayload ...bool) mc
 		}
 		baseEdge := map[string]data.Point{}
 		for _, p := range base[0].EdgePoints {
-			baseEdge[p.Type+"\x00"+normKey(p.Key)] = p
+			baseEdge[c01ID(p.Type, normKey(p.Key))] = p
 		}
 
 		newest := map[string]data.Point{} // normalised identity -> newest delivered
@@ -170,7 +176,7 @@ func c01BodyI(edge bool, maxN int, c01Idents []c01Ident, samePayload ...bool) mc
 				if concat[c] == nil {
 					concat[c] = map[string]bool{}
 				}
-				concat[c][p.Type+"\x00"+p.Key] = true
+				concat[c][c01ID(p.Type, p.Key)] = true
 			}
 			f := ""
 			for _, m := range ks {
@@ -193,7 +199,7 @@ func c01BodyI(edge bool, maxN int, c01Idents []c01Ident, samePayload ...bool) mc
 			batch := make(data.Points, len(b))
 			for k, i := range b {
 				batch[k] = pts[i]
-				id := pts[i].Type + "\x00" + normKey(pts[i].Key)
+				id := c01ID(pts[i].Type, normKey(pts[i].Key))
 				if cur, ok := newest[id]; !ok || pts[i].Time.After(cur.Time) {
 					newest[id] = pts[i]
 				}
@@ -230,15 +236,15 @@ func c01BodyI(edge bool, maxN int, c01Idents []c01Ident, samePayload ...bool) mc
 			seen := map[string]int{}
 			cnt := map[string]int{}
 			for _, p := range have {
-				cnt[p.Type+"\x00"+normKey(p.Key)]++
+				cnt[c01ID(p.Type, normKey(p.Key))]++
 			}
 			for _, p := range have {
-				if id := p.Type + "\x00" + normKey(p.Key); cnt[id] > 1 {
+				if id := c01ID(p.Type, normKey(p.Key)); cnt[id] > 1 {
 					return mc.Outcome{Violation: fmt.Sprintf("after delivering %s: read returns %d points for identity (%s,%q): %v", desc(b), cnt[id], p.Type, normKey(p.Key), have), Key: "two-points-one-identity/" + where + flags(b)}
 				}
 			}
 			for _, p := range have {
-				id := p.Type + "\x00" + normKey(p.Key)
+				id := c01ID(p.Type, normKey(p.Key))
 				seen[id]++
 				e, ok := exp[id]
 				if !ok {
@@ -280,6 +286,8 @@ func checkC01(r *mc.Report, thorough bool) {
 	r.Explore(mc.Config{Name: fmt.Sprintf("edge-points-n%d", n), Rule: rule, SelfCheckEvery: 5000}, c01Body(true, n))
 	r.Explore(mc.Config{Name: "node-points-empty-type-n3", Rule: "as node-points-n3 over the identities (\"\",\"\"), (a,\"\"), (\"\",b), (a,b): a point whose type is the empty string is an identity of its own", SelfCheckEvery: 5000}, c01BodyI(false, 3, c01EmptyType))
 	r.Explore(mc.Config{Name: "edge-points-empty-type-n3", Rule: "the same for edge points", SelfCheckEvery: 5000}, c01BodyI(true, 3, c01EmptyType))
+	r.Explore(mc.Config{Name: "node-points-nul-bytes-n2", Rule: "two points over identities whose type / key contain a NUL byte ((a\\x00b,c), (a,b\\x00c), (a\\x00,\"\"), (a,\\x000)): all orders, batch compositions and re-deliveries", SelfCheckEvery: 5000}, c01BodyI(false, 2, c01Nul))
+	r.Explore(mc.Config{Name: "edge-points-nul-bytes-n2", Rule: "the same for edge points", SelfCheckEvery: 5000}, c01BodyI(true, 2, c01Nul))
 	sameRule := "three points of one identity of which two (any two) or all three carry the same value, text, data, tombstone and origin and differ only in their time; timestamps rising / falling with the index; all permutations x all compositions into batches x one re-delivery; read-back (time included) checked after every delivery"
 	r.Explore(mc.Config{Name: "node-points-same-payload", Rule: sameRule}, c01Body(false, 3, true))
 	r.Explore(mc.Config{Name: "edge-points-same-payload", Rule: sameRule}, c01Body(true, 3, true))
@@ -296,6 +304,8 @@ func init() {
 	}
 	bodies["C01/node-points-empty-type-n3"] = c01BodyI(false, 3, c01EmptyType)
 	bodies["C01/edge-points-empty-type-n3"] = c01BodyI(true, 3, c01EmptyType)
+	bodies["C01/node-points-nul-bytes-n2"] = c01BodyI(false, 2, c01Nul)
+	bodies["C01/edge-points-nul-bytes-n2"] = c01BodyI(true, 2, c01Nul)
 	bodies["C01/node-points-same-payload"] = c01Body(false, 3, true)
 	bodies["C01/edge-points-same-payload"] = c01Body(true, 3, true)
 }
